@@ -138,7 +138,8 @@ def run_shard(shard) -> Result:
             try:
                 b.import_all()
             except BuildError as e:
-                res.violation("import", [cfg_sig, "generated-package-does-not-import", _exc(e.detail)], f"{name} [{cfg}]: {e.detail[-900:]}", w)
+                res.violation("import", [cfg_sig, "generated-package-does-not-import", _exc(e.detail, _import_shape(b, e.detail, cfg))],
+                              f"{name} [{cfg}]: {e.detail[-900:]}", w)
                 b.cleanup()
                 continue
             builds[cfg] = b
@@ -164,7 +165,7 @@ def run_shard(shard) -> Result:
             except Exception as e:
                 res.violation("structure", [cfg_sig, "introspection-raised:" + type(e).__name__, "-"], f"{name} [{cfg}]: {e!r}\n{traceback.format_exc()[-600:]}", w)
                 continue
-            _compare_structure(s0, s1, cfg_sig, name, cfg, res, w)
+            _compare_structure(s0, s1, cfg_sig, name, cfg, res, w, {m.full_name: m for m in b.user_messages()})
         _compare_behaviour(builds, shard, name, res, w0)
         if len(res.samples) < 1:
             res.sample({"program": name, "variants_built": sorted(builds), "messages": len(s0["messages"]), "services": len(s0["services"])})
@@ -176,23 +177,97 @@ def run_shard(shard) -> Result:
     return res
 
 
-def _exc(detail: str) -> str:
+def _exc(detail: str, shape: str = "") -> str:
     import re
 
     m = re.findall(r"^(\w+(?:Error|Exception))\b", detail, flags=re.M)
-    return (m[-1] if m else "unknown") + _mech(detail)
+    return (m[-1] if m else "unknown") + _mech(detail, shape)
 
 
-def _mech(detail: str) -> str:
+def _import_shape(b, detail: str, cfg: str = "pydantic") -> str:
+    """shape over the messages of the package whose import failed (the BuildError names the module)"""
+    import re
+
+    m = re.match(r"\s*(\S+?):", detail)
+    mod = m.group(1) if m else ""
+    pkg = mod.split(".", 1)[1] if "." in mod else ""
+    # the failing module may be one that the named package imports (circular packages), so the whole program counts
+    return shadow_shape(b.user_messages(), cfg)
+
+
+def _mech(detail: str, shape: str = "") -> str:
     """mechanism class of an error text"""
-    if "'Placeholder'" in detail or "<PLACEHOLDER>" in detail:
-        # a field named like a builtin (list, dict, int ...) shadows it when string annotations are evaluated
-        # with the class namespace (pydantic does that)
-        return ":builtin-name-shadowed-by-field"
+    if ("'Placeholder' object has no attribute" in detail or "'NoneType' object has no attribute" in detail) and "_eval_type" in detail:
+        # "pkg.Type" resolved with the class namespace where a FIELD named like the imported package alias shadows it
+        return ":field-name-shadows-import-alias"
+    if ("'Placeholder'" in detail or "<PLACEHOLDER>" in detail or "Field(name=" in detail
+            or ("Unable to evaluate type annotation" in detail and ("is not subscriptable" in detail or "unsupported operand type(s) for |" in detail))):
+        # a field named like a builtin (list, dict, int ...) shadows it when annotations are evaluated
+        # with the class namespace (pydantic does that) / later in the class body
+        return ":builtin-name-shadowed-by-field" + (":" + shape if shape else "")
     return ""
 
 
-def _compare_structure(s0, s1, cfg_sig, name, cfg, res: Result, w):
+_SCALAR_BUILTINS = {"int": ("int32", "int64", "uint32", "uint64", "sint32", "sint64", "fixed32", "fixed64", "sfixed32", "sfixed64"),
+                    "float": ("float", "double"), "str": ("string",), "bytes": ("bytes",), "bool": ("bool",)}
+
+
+def _mentions(f):
+    """python builtin type names a field's annotation mentions (before any builtins. qualification)"""
+    out = set()
+    parts = [f.map_key, f.map_value] if f.label == "map" else [f]
+    for x in parts:
+        k = x.wkt.split(":")[1] if (x.wkt or "").startswith("wrapper:") else (x.kind if x.wkt is None else None)
+        for bn, kinds in _SCALAR_BUILTINS.items():
+            if k in kinds:
+                out.add(bn)
+    return out
+
+
+def shadow_shape(msgs, cfg: str = "pydantic") -> str:
+    """'known-shape' iff some message has a field-name shape for which the PINNED tree already emits an unqualified
+    builtin name that a field of the same class shadows.  The plugin qualifies a type with `builtins.` only in plain /
+    repeated / optional (and, since the repair, map) annotations of fields declared AFTER the builtin-named field (or
+    of that field itself); it never qualifies wrapper annotations, nor the `list[...]` / `dict[...]` containers of
+    typing.310.  pydantic evaluates annotations lazily with the class namespace, so there also fields declared BEFORE
+    the builtin-named field are hit.  Any other shape showing the shadowing symptom is a different defect."""
+    pyd = "pydantic" in cfg
+    for mi in msgs:
+        names = [f.name for f in mi.fields]
+        if pyd and "310" in cfg:
+            if "list" in names and any(f.label == "repeated" for f in mi.fields):
+                return "known-shape"
+            if "dict" in names and any(f.label == "map" for f in mi.fields):
+                return "known-shape"
+        for fi_idx, F in enumerate(mi.fields):
+            if F.name not in _SCALAR_BUILTINS:
+                continue
+            for gi, G in enumerate(mi.fields):
+                if gi == fi_idx or F.name not in _mentions(G):
+                    continue
+                is_wrapper = (G.wkt or "").startswith("wrapper:")
+                if is_wrapper or (pyd and gi < fi_idx):
+                    return "known-shape"
+    return "other-shape"
+
+
+def _closure(b, mi, depth=3):
+    out, todo = {}, [(mi, 0)]
+    while todo:
+        m, d = todo.pop()
+        if m.full_name in out:
+            continue
+        out[m.full_name] = m
+        if d < depth:
+            for f in m.fields:
+                inner = f.map_value if f.label == "map" else f
+                if inner is not None and inner.kind == "message" and inner.type_name in b.msgs and not inner.type_name.startswith(".google."):
+                    todo.append((b.msgs[inner.type_name], d + 1))
+    return list(out.values())
+
+
+def _compare_structure(s0, s1, cfg_sig, name, cfg, res: Result, w, mi_of=None):
+    mi_of = mi_of or {}
     for section in ("messages", "enums", "services"):
         res.counters["comparisons"] += 1
         if sorted(s0[section]) != sorted(s1[section]):
@@ -211,7 +286,7 @@ def _compare_structure(s0, s1, cfg_sig, name, cfg, res: Result, w):
             for key in ("name", "proto_type", "group", "map_types", "wraps", "type"):
                 res.counters["comparisons"] += 1
                 if f0[key] != f1[key]:
-                    mech = ":builtin-name-shadowed-by-field" if ("Field(name=" in str(f0[key]) or "Field(name=" in str(f1[key])) else ""
+                    mech = _mech(str(f0[key]) + str(f1[key]), shadow_shape([mi_of[full]], "pydantic,310") if full in mi_of else "")
                     res.violation("structure", [cfg_sig, "field-" + key + mech, f0["proto_type"]],
                                   f"{name} [{cfg}]: {full} field #{num} {key}: default {f0[key]!r} vs {f1[key]!r}", w)
     for full, e0 in s0["enums"].items():
@@ -275,7 +350,7 @@ def _compare_behaviour(builds, shard, name, res: Result, w0):
                 bad = isolate_deep(b0, mi, tree, pred)
                 for fi, v in bad or [(None, None)]:
                     cs = carrier_sig(b0, fi, v) if fi is not None else ["combination", "?"]
-                    res.violation("behaviour", [cfg_sig, "construct-raised:" + type(e).__name__ + _mech(str(e))] + cs,
+                    res.violation("behaviour", [cfg_sig, "construct-raised:" + type(e).__name__ + _mech(str(e), shadow_shape(_closure(b0, mi), cfg))] + cs,
                                   f"{name} [{cfg}]: {mi.full_name} accepts a value under the default options but not here: {str(e)[:300]}", w)
                 continue
             try:
